@@ -6,6 +6,7 @@ import OW.Driver.Nd
 import OW.Driver.Wrapper
 import OW.Driver.Json
 import OW.Driver.H5
+import OW.Driver.Sim
 namespace OW.Driver
 open OW.Proto
 
@@ -19,7 +20,7 @@ def dispatch (fam : String) (args : Toks) : String :=
   | "KSPLIT" => Kernel.handleSplit args
   | "KHIST" => Kernel.handleHist args
   | "W" => Wrapper.handle args
-  | "CABI" => Wrapper.handle args
+  | "CABI" => Wrapper.handleCabi args
   | "ND" => Nd.handle args
   | "NDPAIR" => Nd.handlePair args
   | "NI" => Nd.handleNI args
@@ -29,6 +30,8 @@ def dispatch (fam : String) (args : Toks) : String :=
   | "JSA" => Json.handleJSA args
   | "H5" => H5.handle args
   | "H5U" => H5.handleU args
+  | "SIM" => Sim.handle args
+  | "SIMTRACE" => Sim.handleTrace args
   | _ => "bad-family"
 
 def handleLine (line : String) : String :=
